@@ -259,3 +259,20 @@ def honest_handshake(clock, step=0.05):
     d3 = cl._encode_packet(cl._build_packet())
     sv._recv_datagram(PacketHeader.from_bytes(True, d3), d3)
     return cl, sv, ctxt, handler, cb
+
+
+# ------------------------------------------------------------------ MTU with a history
+def set_mtu(name='mtu', lo=512, hi=1500):
+    """Packet.setMTU(mtu) for an arbitrary mtu, optionally after an earlier setMTU call with another arbitrary value:
+    the class constants must depend on the last call only.  -> the SxInt mtu"""
+    if bool(symbool(name + '_set_before')):
+        Packet.setMTU(symint(name + '_before', lo, hi))
+    mtu = symint(name, lo, hi)
+    Packet.setMTU(mtu)
+    return mtu
+
+
+def replay_set_mtu(c, m, name='mtu'):
+    if m.get(name + '_set_before'):
+        c.Packet.setMTU(m.get(name + '_before', 1500))
+    c.Packet.setMTU(m.get(name, 1500))
